@@ -31,18 +31,23 @@ def verify(src, name, prop, needs):
     assert rc == 0, out
     try:
         shutil.copy("/repo/Cargo.lock", wt)
-        env = dict(os.environ, CARGO_NET_OFFLINE="true")
-        rc, out = sh("cargo build --offline 2>&1 | tail -3", cwd=wt, env=env)
+        # one shared target directory outside /repo and /verif keeps the dependency builds warm between seeds
+        tdir = "/tmp/p2sh-seed-target"
+        env = dict(os.environ, CARGO_NET_OFFLINE="true", CARGO_TARGET_DIR=tdir)
+        benv = dict(env, RUSTFLAGS="--cfg p2sh_verif") if os.environ.get("SEED_HOOKS") else env   # demos that drive the REPL need the scripted line source
+        rc, out = sh("cargo build --offline 2>&1 | tail -3", cwd=wt, env=benv)
         base_bin = os.path.join(wt, "base-p2sh")
-        shutil.copy(os.path.join(wt, "target/debug/p2sh"), base_bin)
+        shutil.copy(os.path.join(tdir, "debug/p2sh"), base_bin)
         rc, out = sh("git apply %s" % os.path.join(src, "patch.diff"), cwd=wt)
         assert rc == 0, "patch does not apply: " + out
-        rc, out = sh("cargo build --offline 2>&1 | tail -3", cwd=wt, env=env)
+        rc, out = sh("cargo build --offline 2>&1 | tail -3", cwd=wt, env=benv)
         assert rc == 0 and "error" not in out.lower().split("warning")[0], "build failed: " + out
+        patched_bin = os.path.join(wt, "patched-p2sh")
+        shutil.copy(os.path.join(tdir, "debug/p2sh"), patched_bin)
         rc, out = sh("cargo test --offline 2>&1 | grep 'test result'", cwd=wt, env=env)
         tests_ok = "184 passed; 0 failed" in out
         demo = os.path.join(src, "demo.sh")
-        rc_patched, out_p = sh("bash %s %s" % (demo, os.path.join(wt, "target/debug/p2sh")), cwd=src, timeout=120)
+        rc_patched, out_p = sh("bash %s %s" % (demo, patched_bin), cwd=src, timeout=120)
         rc_base, out_b = sh("bash %s %s" % (demo, base_bin), cwd=src, timeout=120)
         ok = tests_ok and rc_patched != 0 and rc_base == 0
         print("tests: %s | demo with change: rc=%s | demo without: rc=%s  => %s" % (out.strip(), rc_patched, rc_base, "CONFIRMED" if ok else "REJECTED"))
